@@ -13,6 +13,31 @@ import (
 )
 
 // goReplay runs one injected test of /repo with the given inputs.
+// goReplayRace runs a replay test under the race detector; the confirmation is the detector's own report
+// naming fn.
+func goReplayRace(r *Report, pkgRel, testFile, testName, fn string) (string, bool) {
+	raceReplay = true
+	defer func() { raceReplay = false }()
+	out, _ := goReplay(r, pkgRel, testFile, testName, map[string]string{})
+	conf := false
+	if i := strings.Index(out, "WARNING: DATA RACE"); i >= 0 {
+		rest := out[i:]
+		if j := strings.Index(rest, "=================="); j > 0 {
+			rest = rest[:j]
+		}
+		conf = strings.Contains(rest, fn)
+		if conf {
+			out = "REPLAY-CONFIRMED: the race detector reports a data race in " + fn + "\n" + out[i:]
+		}
+	}
+	if !conf {
+		out = "REPLAY-NOT-REPRODUCED (no race report naming " + fn + ")\n" + out
+	}
+	return out, conf
+}
+
+var raceReplay bool
+
 func goReplay(r *Report, pkgRel, testFile, testName string, inputs map[string]string) (string, bool) {
 	tmp, err := os.MkdirTemp("", "verif-replay-")
 	if err != nil {
@@ -26,7 +51,11 @@ func goReplay(r *Report, pkgRel, testFile, testName string, inputs map[string]st
 	ovf := filepath.Join(tmp, "overlay.json")
 	os.WriteFile(ovf, b, 0644)
 	in, _ := json.Marshal(inputs)
-	cmd := exec.Command("go", "test", "-overlay", ovf, "-vet=off", "-count=1", "-timeout", "120s", "-v", "-run", "^"+testName+"$", "./"+pkgRel)
+	argv := []string{"test", "-overlay", ovf, "-vet=off", "-count=1", "-timeout", "120s", "-v", "-run", "^" + testName + "$", "./" + pkgRel}
+	if raceReplay {
+		argv = append([]string{"test", "-race"}, argv[1:]...)
+	}
+	cmd := exec.Command("go", argv...)
 	cmd.Dir = r.Repo
 	env := []string{}
 	for _, kv := range os.Environ() {
@@ -361,6 +390,16 @@ func init() {
 		run: func(r *Report, o *Obligation, sr *SolveResult) ReplayResult {
 			out, conf := goReplay(r, "cmd/keymasterd", "keymasterd_replay_test.go", "TestVerifReplayPublishedKeys", map[string]string{})
 			return ReplayResult{Confirmed: conf, Summary: replaySummary(out), Output: truncate(out, 4000), Driver: "TestVerifReplayPublishedKeys (scenarios of the model: which signing keys are already in the published list)"}
+		},
+	})
+}
+
+func init() {
+	replayDrivers = append(replayDrivers, replayDriver{
+		match: func(n string) bool { return strings.Contains(n, "u2fSignResponse#C16.state-mutex.RuntimeState.localAuthData") },
+		run: func(r *Report, o *Obligation, sr *SolveResult) ReplayResult {
+			out, conf := goReplayRace(r, "cmd/keymasterd", "keymasterd_u2f_replay_test.go", "TestVerifReplayU2FChallengeMapRace", "u2fSignResponse")
+			return ReplayResult{Confirmed: conf, Summary: firstLines(out, 1), Output: truncate(out, 6000), Driver: "TestVerifReplayU2FChallengeMapRace under go test -race (schedule of the model: another request holds state.Mutex and uses the map while the sign response is served)"}
 		},
 	})
 }
